@@ -88,6 +88,11 @@ def discharge(ob, use_cvc5=True):
                 ob.backend = 'z3&cvc5'
             elif res == 'sat':
                 ob.verdict, ob.backend = 'undecided', 'disagreement:z3=unsat,cvc5=sat'
+                dump = os.environ.get('PYVC_DUMP') or '/dev/shm/pyvc_disagreements'
+                import hashlib
+                os.makedirs(dump, exist_ok=True)
+                with open(os.path.join(dump, hashlib.sha256(ob.name.encode()).hexdigest()[:10] + f'_{ob.path_id}.smt2'), 'w') as fp:
+                    fp.write('; ' + ob.name + '\n' + smt2)
         return ob
     if r == z3.sat:
         ob.verdict, ob.backend = 'refuted', 'z3'
